@@ -753,9 +753,12 @@ where
         }
     }
 
-    let mut outer = Outer::default();
-    let mut tokens: VecDeque<_> = Some(tree.as_token()).into_iter().collect();
-    while let Some(token) = tokens.pop_front() {
+    // The tokens adjacent to a branch only concern that branch and its sub-trees, so they are
+    // queued together with the tokens of the branch.
+    let mut tokens: VecDeque<_> = Some((tree.as_token(), Outer::default()))
+        .into_iter()
+        .collect();
+    while let Some((token, outer)) = tokens.pop_front() {
         use BranchKind::{Alternation, Repetition};
 
         for (left, token, right) in token
@@ -766,7 +769,7 @@ where
         {
             match token.as_branch() {
                 Some(Alternation(ref alternation)) => {
-                    outer = outer.or(left, right);
+                    let outer = outer.or(left, right);
                     let diagnose = diagnose(tree.expression(), token, "in this alternation");
                     for token in alternation.tokens() {
                         let concatenation = token.concatenation();
@@ -775,10 +778,10 @@ where
                             check_alternation(terminals, outer).map_err(diagnose)?;
                         }
                     }
-                    tokens.extend(alternation.tokens());
+                    tokens.extend(alternation.tokens().iter().map(|token| (token, outer)));
                 },
                 Some(Repetition(ref repetition)) => {
-                    outer = outer.or(left, right);
+                    let outer = outer.or(left, right);
                     let diagnose = diagnose(tree.expression(), token, "in this repetition");
                     let token = repetition.token();
                     let concatenation = token.concatenation();
@@ -787,7 +790,7 @@ where
                         check_repetition(terminals, outer, repetition.variance())
                             .map_err(diagnose)?;
                     }
-                    tokens.push_back(token);
+                    tokens.push_back((token, outer));
                 },
                 _ => {},
             }
